@@ -8,8 +8,9 @@ EXPLANATION = (
     "contract table: Complete | CompleteMulti | Invalidate remove the run (one completion per run), Continue | NoMatch | "
     "CompleteAndContinue keep it; (c) on MIR of advance_run_shared / advance_and_state: after an event has been captured by a "
     "transition no second capture is reachable for the same event (first matching transition wins)."
+    " (d) sibling prologue: before advancing a run both run loops drop it under the same condition, which includes Run.invalidated (set by a global negation), so an invalidated run never advances or completes."
 )
-DECIDED = ["existing runs advance before a new run is started with the same event", "a completed run is removed in both run loops", "one capture per run and event"]
+DECIDED = ["existing runs advance before a new run is started with the same event", "a completed run is removed in both run loops", "one capture per run and event", "both run loops drop timed-out and invalidated runs before advancing them"]
 NOT_DECIDED = ["that the emitted match is the earliest one (depends on iteration order and swap_remove reordering)", "negation timing (see C01)"]
 
 S = "varpulis_runtime::sase::"
